@@ -3,7 +3,7 @@
 import json,glob,os
 root=os.path.join(os.path.dirname(os.path.abspath(__file__)),'..','seeded')
 rows=[]
-for f in sorted(glob.glob(os.path.join(root,'*','*','meta.json'))):
+for f in sorted(glob.glob(os.path.join(root,'*','meta.json'))):
     m=json.load(open(f))
     d=os.path.relpath(os.path.dirname(f),root)
     runs=[r for r in m.get('checks_run',[]) if isinstance(r,dict)]
